@@ -6,6 +6,12 @@ use std::time::Instant;
 
 pub const VERIF_DIR: &str = "/verif";
 
+/// Where evidence and replay files go: /verif, unless VERIF_OUT_DIR redirects them (used only
+/// when a scratch copy of the harness is run against a scratch copy of the repository).
+fn out_root() -> PathBuf {
+    std::env::var_os("VERIF_OUT_DIR").map(PathBuf::from).unwrap_or_else(|| PathBuf::from(VERIF_DIR))
+}
+
 #[derive(Clone, Copy, PartialEq, Eq, Debug)]
 pub enum Tier {
     Quick,
@@ -64,7 +70,7 @@ impl Run {
     /// Record a violation: writes the replay file and prints the VIOLATION line.
     pub fn violation(&mut self, what: &str, replay: J) -> PathBuf {
         self.replay_n += 1;
-        let dir = Path::new(VERIF_DIR).join("replays").join(&self.prop);
+        let dir = out_root().join("replays").join(&self.prop);
         let _ = std::fs::create_dir_all(&dir);
         let p = dir.join(format!("{}-{}-{}.json", self.tier.name(), self.seed, self.replay_n));
         let body = json!({"property": self.prop, "tier": self.tier.name(), "seed": self.seed, "what": what, "replay": replay});
@@ -116,7 +122,7 @@ impl Run {
             "wall_s": wall,
             "violations": self.violations.len(),
         });
-        let dir = Path::new(VERIF_DIR).join("evidence");
+        let dir = out_root().join("evidence");
         let _ = std::fs::create_dir_all(&dir);
         let p = dir.join(format!("{}.json", self.prop));
         let _ = std::fs::write(&p, serde_json::to_vec_pretty(&ev).unwrap_or_default());
